@@ -1199,6 +1199,15 @@ func run(ctx *Ctx) *Result {
 				allEq := f2["eqpairs"] == f2["cmppairs"]
 				allId := f2["idpairs"] == f2["cmppairs"]
 				res.Count(fmt.Sprintf("second-compare-after-wfB-run:first-run-without-suppressed-move=%s,all-pairs-equal=%v,identity-scripts=%v", f["nosuppr"], allEq, allId))
+				res.Count("ios_F2_idempotent_exact-class(wfB,noSupprB)=" + f["nosupprB"])
+				if f["nosupprB"] == "1" && v2 == "ok" {
+					// the theorem: every pair of the second compare is equal line by line, and with IdentityDiffer the second script is empty
+					if !allEq {
+						res.Disagree("F2: wfB run without suppressed move, but a pair of the second compare is not equal line by line (contradicts ios_F2_idempotent_exact)", c, final.print(), f2["eqpairs"]+"/"+f2["cmppairs"])
+					} else if f2["iddiffer"] == "1" && strings.TrimSpace(out2) != "" {
+						res.Disagree("F2: wfB run without suppressed move, identity differ, yet the second compare prints changes (contradicts ios_F2_idempotent_exact)", c, out2, "")
+					}
+				}
 				if v2 == "ok" && allId && strings.TrimSpace(out2) != "" {
 					res.Disagree("F2: wfB run, identity scripts on every pair of the second compare, yet drc prints changes (contradicts ios_F2_idempotent_exact)", c, out2, "")
 				}
